@@ -44,11 +44,11 @@ def expected_request(user, pw):
     return enc(user) + enc(pw) + b"\0\0" + b"\0\0"
 
 
-def run_script(exe, work, idx, edge):
+def run_script(exe, work, idx, edge, creds=None):
     s = edge["script"]
     r = s["reply"]
-    user, pw = CREDS[idx % len(CREDS)]
-    opts = OPTS[(idx // 3) % len(OPTS)]
+    user, pw = creds or CREDS[idx % len(CREDS)]
+    opts = OPTS[(idx // 3) % len(OPTS)] if creds is None else ["use_first_pass"]
     if r["body"] >= 250 and "debug" not in opts:          # long replies always also with the debug log on
         opts = opts + ["debug"]
     mode = "conv" if "use_first_pass" not in opts and "try_first_pass" not in opts else "stack"
@@ -242,4 +242,45 @@ def judge_sequences(ctx, results, prop="C20"):
                 ctx.violation(prop, "sequence:call-%d-success=%s:%s/cut=%s" % (k + 1, rc == 0, s["reply"]["id"], s["cut"]),
                               "authentication %d of one process returned %d, the server script demands success=%s (previous replies: %s)" % (
                                   k + 1, rc, e["success"], [x["script"]["reply"]["id"] for x in r["edges"][:k]]))
+    return n
+
+
+GRID = [0, 1, 2, 127, 128, 254, 255, 256, 257, 300, 511, 512, 513, 4096]
+
+
+def encoder_grid(ctx, saslreplay_exe, edge, prop="C13"):
+    """The module's request bytes against the bytes of the real Go encoder for the same fields, for every pair of
+    boundary lengths (fields over the 256-byte limit: the module clamps them, the Go encoder is given the clamped field)."""
+    import random
+    rng = random.Random(ctx.seed)
+    exe = build(ctx)
+    work = os.path.join(ctx.scratch, "pamgrid")
+    os.makedirs(work, exist_ok=True)
+    creds = []
+    for lu in GRID:
+        for lp in GRID:
+            u = bytes(rng.choice(b"abcdefghijklmnopqrstuvwxyz0123456789@._-") for _ in range(lu))
+            p = bytes(rng.randrange(1, 256) for _ in range(lp))         # arbitrary bytes except NUL (C strings)
+            creds.append((u, p))
+    gin, gout = os.path.join(work, "grid.json"), os.path.join(work, "golden.json")
+    json.dump([[u[:256].hex(), p[:256].hex()] for u, p in creds], open(gin, "w"))
+    r = subprocess.run([saslreplay_exe, "-encgrid", gin, "-out", gout], stdout=subprocess.PIPE, stderr=subprocess.STDOUT, text=True)
+    if r.returncode != 0:
+        ctx.fatal("saslreplay -encgrid failed: " + r.stdout[-1500:])
+    golden = json.load(open(gout))
+    with concurrent.futures.ThreadPoolExecutor(max_workers=32) as ex:
+        results = list(ex.map(lambda ic: run_script(exe, work, ic[0], edge, creds=ic[1]), enumerate(creds)))
+    n = 0
+    for res, g, (u, p) in zip(results, golden, creds):
+        if g.get("err"):
+            ctx.violation(prop, "go-encoder-refused:%d/%d" % (len(u[:256]), len(p[:256])), g["err"])
+            continue
+        if res["hung"] or not res["accepted"]:
+            ctx.inconclusive.append("pam encoder grid: no request recorded for %d/%d" % (len(u), len(p)))
+            continue
+        n += 1
+        want = bytes.fromhex(g["bytes"])
+        if res["request"] != want:
+            ctx.violation(prop, "pam-encoder-differs:%d/%d" % (len(u), len(p)),
+                          "module sent %d bytes %r..., the Go encoder gives %d bytes %r..." % (len(res["request"]), res["request"][:8], len(want), want[:8]))
     return n
